@@ -2,9 +2,15 @@
 
 D1 every executing call in cli._run is dominated by every gate (CFG + guard dominance),
    CLI flags reach the gates (flag-driven sections stay attached to the parsed config),
+   nothing that `_run` calls before the last gate passed can create/modify a file or emit a trace record
+   (call-graph closure of every pre-gate call: constructors of the trace driver, the execution
+   components, the Pipeline, run-space expansion, the dry-run printers),
+   the missing-key gate compares the *untransformed* key set of the context the first run receives,
 D2 exit-code table,
 D3 success iff all runs completed; stop at first failure,
-D4 the required-key set the missing-key gate relies on is order-sensitive (C02-D2 rule re-applied).
+D4 the required-key set the missing-key gate relies on is order-sensitive (C02-D2 rule re-applied);
+   the validation gate applies the data-type test to every node that declares an input type and has
+   a typed predecessor (the run-time gate of _DataNode._process is unconditional).
 """
 from __future__ import annotations
 
@@ -156,6 +162,9 @@ def run(repo: Repo, R: Report) -> None:
                 vals = {dotted_name(m.ast.value) for m in rets}
                 ok = bool(rets) and (vals == {"EXIT_SUCCESS"} if want_zero else "EXIT_SUCCESS" not in vals and vals <= set(DOCUMENTED_CODES))
                 R.check(ok, r_gate, CLI, "_run", f"`if {ft}:` exit code", f"the `{ft}` branch exits with {sorted(map(str, vals))}", n.line)
+    # ---- nothing called before the last gate passed writes a file or emits a trace record
+    preflight_effects_rule(repo, R, mod, fn, g, gate_nodes, flag_tests, flag_atom)
+
     # missing is computed from inspection.required_context_keys minus supplied keys
     r_miss = R.rule("C17-D1-missing-key-set", "missing = inspection.required_context_keys minus keys supplied by --context and the run space (def-use)", 2)
     mv = assigned_value(fn, MISSING)
@@ -293,6 +302,7 @@ def run(repo: Repo, R: Report) -> None:
         c02.required_keys_rule(repo, R)
     finally:
         R.rule_prefix = ""
+    validation_gate_rule(repo, R)
 
 
 def _anc(n):
@@ -327,3 +337,217 @@ def _feeds_config_depth(fn: ast.AST, name: str, config: str, depth: int) -> bool
         if any(_feeds_config_depth(fn, nm, config, depth + 1) for nm in names if nm != name):
             return True
     return False
+
+
+# ---------------------------------------------------------------------------------------------
+# D1: side effects of what runs before the gates have passed
+# ---------------------------------------------------------------------------------------------
+# file-system operations that create / modify / delete something (unambiguous method names)
+FS_WRITE_ATTRS = {
+    "mkdir", "makedirs", "touch", "write_text", "write_bytes", "unlink", "rmdir", "rmtree", "symlink_to", "hardlink_to",
+    "mkdtemp", "mkstemp", "NamedTemporaryFile", "TemporaryDirectory", "FileHandler", "RotatingFileHandler",
+    "TimedRotatingFileHandler", "copyfile", "copytree", "copy2",
+}
+# names that are only file operations when qualified by these modules (list.remove, str.replace, dict.copy ...)
+FS_WRITE_QUALIFIED = {"os": {"remove", "rename", "replace", "renames", "truncate", "link", "symlink"}, "shutil": {"copy", "move", "make_archive"}}
+# the trace-driver / run-space emitter protocol: each of these writes a trace record (and opens the file)
+TRACE_EMIT_ATTRS = EXEC_ATTRS - {"process", "execute"}
+
+
+def _fs_effect(c: ast.Call) -> Optional[str]:
+    """What *c* does to the file system / the trace, when that is visible from the call itself."""
+    f = c.func
+    name = f.attr if isinstance(f, ast.Attribute) else f.id if isinstance(f, ast.Name) else None
+    if name is None:
+        return None
+    if name in FS_WRITE_ATTRS:
+        return f"file-system write `{name}`"
+    if isinstance(f, ast.Attribute):
+        recv = dotted_name(f.value) or ""
+        if name in FS_WRITE_QUALIFIED.get(recv.split(".")[-1], ()):
+            return f"file-system write `{recv}.{name}`"
+    if name == "open":
+        # builtin open(path, mode) / io.open / gzip.open(path, mode)  vs  Path.open(mode)
+        builtin_like = isinstance(f, ast.Name) or (dotted_name(f.value) or "") in ("io", "gzip", "bz2", "lzma", "codecs", "os")
+        if isinstance(f, ast.Attribute) and dotted_name(f.value) == "os":
+            return None  # os.open takes integer flags; not modelled
+        mode = kwarg(c, "mode")
+        if mode is None:
+            pos = 1 if builtin_like else 0
+            mode = c.args[pos] if len(c.args) > pos else None
+        if mode is None:
+            return None  # default mode: read
+        if isinstance(mode, ast.Constant) and isinstance(mode.value, str):
+            return f"file opened for writing (mode {mode.value!r})" if set(mode.value) & set("wax+") else None
+        return None  # mode not a literal: not decided here
+    if isinstance(f, ast.Attribute) and name in TRACE_EMIT_ATTRS:
+        return f"trace emission `{name}`"
+    return None
+
+
+def post_gate_nodes(g: CFG, gate_nodes: Dict[str, object], flag_tests: List[str], flag_atom) -> Tuple[Set[int], Set[int]]:
+    """(nodes reachable from the entry, nodes reachable only after every gate passed)."""
+    reachable = set(g.reach([g.entry]))
+    post = set(reachable)
+    for gn in gate_nodes.values():
+        post -= set(g.reach([g.entry], blocked={gn.id}))
+    for ft in flag_tests:
+        atom = flag_atom(ft)
+        blocked_edges = {(n.id, e) for n in g.nodes if n.kind in ("if", "while") and n.part is not None for e in edges_guaranteeing(n.part, atom)}
+        if blocked_edges:
+            post -= set(g.reach([g.entry], blocked_edges=blocked_edges))
+    return reachable, post
+
+
+def preflight_effects_rule(repo: Repo, R: Report, mod, fn: ast.AST, g: CFG, gate_nodes, flag_tests, flag_atom) -> None:
+    """Every call that `_run` can make *before* all gates have passed (it is made for configurations that
+    are going to be rejected, and for --validate / dry runs) must not be able to reach - through the
+    call graph - an operation that creates or modifies a file or emits a trace record."""
+    from ..engine import qualname_of
+
+    r = R.rule("C17-D1-preflight-writes-nothing", "no call that _run makes before every gate has passed (loaders, parser, inspection, validation, the constructors of the trace driver / execution components / Pipeline, run-space expansion, the validate and dry-run branches) reaches a file-creating or file-modifying operation or a trace-driver emission through the call graph", 8)
+    reachable, post = post_gate_nodes(g, gate_nodes, flag_tests, flag_atom)
+    pre_calls: List[ast.Call] = []
+    seen_calls: Set[int] = set()
+    for n in g.nodes:
+        if n.id not in reachable or n.id in post or n.part is None:
+            continue
+        for c in calls_in(n.part):
+            if id(c) not in seen_calls:
+                seen_calls.add(id(c))
+                pre_calls.append(c)
+    if not pre_calls:
+        raise AnalysisError("_run: no call found before the gates")
+    pre_calls.sort(key=lambda c: (c.lineno, c.col_offset))
+    roots: List[Tuple[object, ast.AST]] = []
+    root_site: Dict[str, ast.Call] = {}
+    resolved_calls: List[Tuple[ast.Call, List[str]]] = []
+    for c in pre_calls:
+        if call_attr(c) in EXEC_ATTRS and isinstance(c.func, ast.Attribute):
+            continue  # an executing call before a gate: that is rule C17-D1-gates-dominate-execution
+        direct = _fs_effect(c)
+        if direct:
+            R.violation(r, CLI, "_run", norm(c)[:100], f"{direct} in _run at a point that is reached although a gate has not passed (rejected configuration, --validate or dry run): the run leaves a file behind", c.lineno)
+            continue
+        targets = repo.resolve_call(mod, c)
+        keys = []
+        for m, node in targets:
+            key = f"{m.rel}:{qualname_of(node)}"
+            keys.append(key)
+            if key not in root_site:
+                root_site[key] = c
+                roots.append((m, node))
+        if keys:
+            resolved_calls.append((c, keys))
+    clo = repo.call_graph_closure(roots)
+    dirty_roots: Set[str] = set()
+    reported: Set[Tuple[str, int, int]] = set()
+    for _id, (m, node, path) in clo.items():
+        for k in calls_in(node, include_nested=True):
+            eff = _fs_effect(k)
+            if not eff:
+                continue
+            dirty_roots.add(path[0])
+            key3 = (m.rel, k.lineno, k.col_offset)
+            if key3 in reported:
+                continue
+            reported.add(key3)
+            c = root_site[path[0]]
+            chain = " -> ".join(p.split(":", 1)[1] for p in path)
+            R.violation(r, m.rel, qualname_of(node), norm(k)[:100], f"{eff}, reachable from `_run` line {c.lineno} ({chain}) before every pre-flight gate has passed: a configuration that is rejected afterwards, --validate or a dry run leaves a file / trace behind although no node ran", k.lineno, list(path))
+    for c, keys in resolved_calls:
+        if not (set(keys) & dirty_roots):
+            R.ok(r, CLI, "_run", norm(c)[:100], "", c.lineno)
+
+
+# ---------------------------------------------------------------------------------------------
+# D4: the validation gate is as strict as the run-time gate
+# ---------------------------------------------------------------------------------------------
+VALIDATOR = "semantiva/inspection/validator.py"
+
+
+def _implies_legit(test: ast.AST, polarity: bool, legit: Set[str]) -> bool:
+    """Does `test` evaluating to *polarity* imply that one of the expressions in *legit* is None?"""
+    if isinstance(test, ast.UnaryOp) and isinstance(test.op, ast.Not):
+        return _implies_legit(test.operand, not polarity, legit)
+    if isinstance(test, ast.BoolOp):
+        conj = isinstance(test.op, ast.And)
+        if conj == polarity:  # (A and B) true / (A or B) false: every operand has that value
+            return any(_implies_legit(v, polarity, legit) for v in test.values)
+        return all(_implies_legit(v, polarity, legit) for v in test.values)
+    if isinstance(test, ast.Compare) and len(test.ops) == 1:
+        left, op, right = test.left, test.ops[0], test.comparators[0]
+        if isinstance(left, ast.Constant) and left.value is None:
+            left, right = right, left
+        if isinstance(right, ast.Constant) and right.value is None and ast.unparse(left) in legit:
+            if isinstance(op, (ast.Is, ast.Eq)):
+                return polarity is True
+            if isinstance(op, (ast.IsNot, ast.NotEq)):
+                return polarity is False
+        return False
+    if ast.unparse(test) in legit:  # bare truthiness of an object-or-None / class-or-None
+        return polarity is False
+    return False
+
+
+def validation_gate_rule(repo: Repo, R: Report) -> None:
+    """`_DataNode._process` raises TypeError for *every* node whose input type is not a superclass of
+    the data it receives.  The CLI stops such a configuration before execution only if the validator
+    applies its compatibility test to every node that declares an input type and has a typed
+    predecessor; and a failed test has to become a node error (validate_pipeline raises on those)."""
+    from ..normal import nfunc
+    from ..pat import find
+
+    r = R.rule("C17-D4-validation-covers-typed-nodes", "in the data-flow validation loop every node reaches the compatibility test unless its input type is None or there is no typed predecessor (no other way round the test), and an incompatible pair reaches the statement that records a node error", 2)
+    fname = "_validate_data_flow_compatibility"
+    vf = nfunc(repo, VALIDATOR, fname, keep=("_is_compatible",), consts=False)
+    hits = [(n, e) for n, e in find(vf, "_is_compatible(_P_.output_type, _N_.input_type)", nested=False)]
+    if len(hits) != 1:
+        raise AnalysisError(f"{fname}: expected one _is_compatible(<pred>.output_type, <node>.input_type) test, found {len(hits)}")
+    comp, env = hits[0]
+    P, N = ast.unparse(env["_P_"]), ast.unparse(env["_N_"])
+    loop = next((a for a in _anc(comp) if isinstance(a, ast.For)), None)
+    if loop is None or ast.unparse(loop.target) != N:
+        raise AnalysisError(f"{fname}: the compatibility test is not inside the loop over the inspected nodes")
+    g = CFG(vf, may_raise=lambda part: set())
+    head = g.nodes_for(loop)
+    comp_stmt = stmt_of(comp)
+    cn = g.nodes_for(comp_stmt)
+    if len(head) != 1 or len(cn) != 1:
+        raise AnalysisError(f"{fname}: loop / test not found in the control-flow graph")
+    head, cn = head[0], cn[0]
+    legit = {P, f"{N}.input_type"}
+    legit_edges: Set[Tuple[int, str]] = set()
+    for n in g.nodes:
+        if n.kind in ("if", "while") and n.part is not None:
+            for lab, pol in (("T", True), ("F", False)):
+                if _implies_legit(n.part, pol, legit):
+                    legit_edges.add((n.id, lab))
+    body_entry = [t for t, lab in g.succ[head] if lab == "T"]
+    seen = g.reach(body_entry, blocked={cn}, blocked_edges=legit_edges)
+    leaves = [x for x in (head, g.ret_exit) if x in seen]
+    path = g.path_to(seen, leaves[0]) if leaves else None
+    skip = ""
+    if path:
+        # name the test whose edge lets a typed node round the compatibility test
+        tests = [g.nodes[i] for i in seen if g.nodes[i].kind == "if" and g.nodes[i].part is not None and not all((i, lab) in legit_edges for lab in ("T", "F"))]
+        cand = [t for t in tests if any(ast.unparse(x) in legit for x in ast.walk(t.part))] or tests
+        skip = f" (see `if {norm(cand[0].part)[:80]}`)" if cand else ""
+    R.check(not leaves, r, VALIDATOR, fname, f"every node with an input type and a typed predecessor reaches {norm(comp)[:70]}",
+            f"a node that declares an input type and has a typed predecessor can go round the compatibility test{skip}: validation accepts a pipeline whose node raises TypeError at run time, after earlier nodes (sinks, trace) already ran",
+            (cand[0].line if path and cand else loop.lineno), path)
+    # an incompatible pair is recorded as an error of the node
+    def is_compat(e: ast.AST) -> Optional[bool]:
+        return True if e is comp else None
+
+    if g.nodes[cn].kind == "if":
+        bad_labels = {"T", "F"} - edges_guaranteeing(g.nodes[cn].part, is_compat) if edges_guaranteeing(g.nodes[cn].part, is_compat) else {"T", "F"}
+        starts = [t for t, lab in g.succ[cn] if lab in bad_labels]
+        recorders = {n.id for n in g.nodes if n.part is not None and any(call_attr(c) in ("append", "extend", "add") and "errors" in ast.unparse(c.func) for c in calls_in(n.part))}
+        raisers = {n.id for n in g.nodes if n.kind == "stmt" and isinstance(n.ast, ast.Raise)}
+        seen2 = g.reach(starts, blocked=recorders | raisers)
+        escaped = [x for x in (head, g.ret_exit) if x in seen2]
+        R.check(bool(recorders | raisers) and not escaped, r, VALIDATOR, fname, "incompatible pair -> node error recorded",
+                "an incompatible (predecessor output, node input) pair does not always end in a recorded error: validate_pipeline does not reject the configuration", comp.lineno, g.path_to(seen2, escaped[0]) if escaped else None)
+    else:
+        R.violation(r, VALIDATOR, fname, norm(comp_stmt)[:100], "the result of the compatibility test does not guard the recording of an error", comp.lineno)
